@@ -115,10 +115,11 @@ static inline int uref_attr_delete_list(struct uref *uref,
                                         int (*list[])(struct uref *uref),
                                         size_t list_size)
 {
-    int err = UBASE_ERR_NONE;
-    for (size_t i = 0; ubase_check(err) && i < list_size; i++)
-        err = list[i](uref);
-    return err;
+    /* an attribute that is already absent is not a reason to keep the
+     * others */
+    for (size_t i = 0; i < list_size; i++)
+        list[i](uref);
+    return UBASE_ERR_NONE;
 }
 
 #define UREF_ATTR_TEMPLATE(utype, ctype)                                    \
